@@ -22,7 +22,7 @@ from ..seq import Layouts, UNKNOWN, show
 COV = "inference/gp/covariance.py"
 MEAN = "inference/gp/mean.py"
 FLOORS = {"changepoint-instance": 4, "difference-before-square": 1, "float-arithmetic": 2, "builder-vs-pairwise": 4, "value-sibling": 4, "gradient-is-derivative": 9, "changepoint-siblings": 4,
-          "composition-order": 4, "mean-sibling": 3, "mean-gradient": 3, "composite-structure": 3, "pairwise-axes": 5,
+          "composition-order": 4, "mean-sibling": 3, "mean-gradient": 3, "composite-structure": 3, "pairwise-axes": 10,
           "changepoint-shared-inplace": 3, "arguments-not-mutated": 60, "overflow-safe": 8}
 
 SCALARS = {"theta[0]", "theta[1]", "theta[1:]", "theta[2:]", "theta"}
@@ -196,6 +196,8 @@ def run(prog, tier):
     # ---------------------------------------------------------------- composites
     obs.extend(_composite(prog))
     obs.extend(_pairwise_axes(prog))
+    from .axrules import kernel_axis_obligations
+    obs.extend(kernel_axis_obligations(prog, "pairwise-axes"))
 
     # ---------------------------------------------------------------- mean functions
     obs.extend(_means(prog))
